@@ -35,15 +35,14 @@ REQUIRED_NITF = [
     'bounds_eq', 'fullOnto_mkBlks', 'blockChild_full', 'blockChild_wf', 'grid_hit', 'grid_miss', 'rawBPR_get', 'rawS_get',
     'orientBPR_ok', 'orientLast_ok', 'wrap_wf', 'wrap_fshape', 'wrap_spec',
     # one image segment
-    'assemble_wf', 'assemble_shape', 'assemble_raw_shape', 'assemble_spec', 'assemble_read_spec', 'leaf_file_offset', 'exH_valid',
+    'assemble_wf', 'assemble_total', 'assemble_accepts', 'assemble_shape', 'assemble_raw_shape', 'assemble_spec', 'assemble_read_spec',
+    'leaf_file_offset', 'exH_valid',
     # several image segments stacked by rows
-    'limits_stacked', 'stacked_get', 'assembleCollection_wf', 'assembleCollection_shape', 'assembleCollection_spec',
+    'limits_stacked', 'stacked_get', 'assembleCollection_wf', 'assembleCollection_total', 'assembleCollection_shape', 'assembleCollection_spec',
     # bridge: the model's orientation tables = the tables regenerated from the current Python (translate/gen_nitf_orient.py)
     'gen_orient_eq_spec', 'gen_orient_complete', 'gen_transpose_eq_spec', 'gen_transpose_complete', 'orientBPR_bands',
 ]
 
-KEY_R = 'nitf-reader-imode-r-refused'
-KEY_T = 'nitf-reader-complex-pair-transpose-rank'
 
 
 # ------------------------------------------------------------------------------------------------ case generation
@@ -159,6 +158,13 @@ def make_cases(rng, tier):
             for _ in range(2):
                 seg = rand_segment(rng, imode, 2, cplx, rng.choice([8, 16, 32]))
                 cases.append({'segs': [seg], 'opts': rand_options(rng)})
+    # I/Q pairs with transpose_axes where the raw data keeps the bands last (IMODE S, collections): refused at open before a5376d3
+    for cplx in 'IQ':
+        seg = rand_segment(rng, 'S', 2, cplx, rng.choice([8, 16, 32]))
+        cases.append({'segs': [seg], 'opts': {'rev': rng.choice([None, [0], [1], [0, 1]]), 'tr': True, 'mm': rng.random() < 0.5}})
+        cols = rng.randint(2, 8)
+        segs = [rand_segment(rng, rng.choice('BPRS'), 2, cplx, 16, cols_hint=cols) for _ in range(2)]
+        cases.append({'segs': segs, 'opts': {'rev': rng.choice([None, [0], [1], [0, 1]]), 'tr': True, 'mm': rng.random() < 0.5}})
     # two I/Q pairs: band axis kept - outside the Lean model, numpy oracle only
     for imode in 'BPS':
         seg = rand_segment(rng, imode, 4, rng.choice('IQ'), 16)
@@ -456,21 +462,18 @@ def _same(got, want):
     return bool(numpy.array_equal(got.astype('int64'), want.astype('int64')))
 
 
-def open_reader(case, buf, tmpdir, patched):
-    """NITFReader on a path (memmap segments) or a BytesIO (file-read segments).  `patched`: a subclass that (i) groups all image
-    segments into one collection when the case has several, through the documented extension point, and (ii) dispatches IMODE R to
-    `_handle_no_compression` (the reader's own dispatch refuses every IMODE R image, see KEY_R)"""
+def open_reader(case, buf, tmpdir):
+    """NITFReader on a path (memmap segments) or a BytesIO (file-read segments).  A case with several image segments is opened through a
+    subclass that only groups them into one collection, through the documented extension point `find_image_segment_collections`
+    (the SICD / SIDD readers do the same); everything else is the reader as shipped"""
     from sarpy.io.general.nitf import NITFReader
     nseg = len(case['segs'])
 
-    class AsmReader(NITFReader):
+    class CollectionReader(NITFReader):
         def find_image_segment_collections(self):
-            return (tuple(range(nseg)), ) if nseg > 1 else NITFReader.find_image_segment_collections(self)
+            return (tuple(range(nseg)), )
 
-        def _create_data_segment_from_imode_r(self, image_segment_index, apply_format):
-            return self._handle_no_compression(image_segment_index, apply_format)
-
-    cls = AsmReader if patched else NITFReader
+    cls = CollectionReader if nseg > 1 else NITFReader
     o = case['opts']
     rev = o['rev'] if (o['rev'] is None or isinstance(o['rev'], int)) else tuple(o['rev'])
     kw = {'reverse_axes': rev, 'transpose_axes': (1, 0) if o['tr'] else None}
@@ -480,17 +483,6 @@ def open_reader(case, buf, tmpdir, patched):
             f.write(buf)
         return cls(path, **kw)
     return cls(io.BytesIO(buf), **kw)
-
-
-def known_key(case, exc, patched):
-    """the listed finding an open failure belongs to - only when the case contains that finding's specific trigger"""
-    segs = case['segs']
-    if not patched and any(s['imode'] == 'R' for s in segs) and isinstance(exc, ValueError) and 'IMODE is `R`' in str(exc):
-        return KEY_R
-    rank_error = isinstance(exc, IndexError) or (isinstance(exc, ValueError) and 'transpose_axes must be a permutation' in str(exc))
-    if rank_error and case['opts']['tr'] and segs[0]['cplx'] != 'N' and segs[0]['nb'] == 2 and (len(segs) > 1 or segs[0]['imode'] == 'S'):
-        return KEY_T
-    return None
 
 
 def case_class(case):
@@ -504,22 +496,12 @@ def case_class(case):
 def run_oracle(case, buf, tmpdir, subs, rawsubs, fails, stats, collect=None):
     """open the file and compare every read with the numpy oracle.  Appends failure dicts; returns the opened reader's segment
     or None.  `collect`: dict receiving the implementation's arrays for the model comparison."""
-    need_patch = len(case['segs']) > 1 or any(s['imode'] == 'R' for s in case['segs'])
     desc = {k: v for k, v in case.items()}
-    if any(s['imode'] == 'R' for s in case['segs']) and len(case['segs']) == 1:
-        # the reader as shipped
-        try:
-            r0 = open_reader(case, buf, tmpdir, False)
-            r0.close()
-        except Exception as e:
-            fails.append({'kind': 'nitf', 'case': desc, 'key': known_key(case, e, False),
-                          'msg': f'NITFReader refuses a valid uncompressed IMODE R image at open: {type(e).__name__}: {e}'})
     try:
-        rdr = open_reader(case, buf, tmpdir, need_patch)
+        rdr = open_reader(case, buf, tmpdir)
     except Exception as e:
         stats['open_refused'] = stats.get('open_refused', 0) + 1
-        fails.append({'kind': 'nitf', 'case': desc, 'key': known_key(case, e, need_patch),
-                      'msg': f'NITFReader refuses a valid file at open: {type(e).__name__}: {e}'})
+        fails.append({'kind': 'nitf', 'case': desc, 'msg': f'NITFReader refuses a valid file at open: {type(e).__name__}: {e}'})
         return None
     try:
         seg = rdr.data_segment
@@ -625,7 +607,7 @@ def check(plan_, ans, tmpdir):
         m_shape = ans[q['shape']]
         if seg is None:
             new = fails[nf:]
-            if m_shape != 'refused' and not any(f.get('key') for f in new):
+            if m_shape != 'refused':
                 disagree('open', m_shape, 'refused at open')
             continue
         if m_shape == 'refused':
